@@ -81,6 +81,10 @@ func genPR(rt *rapid.T, focus int) prScn {
 		msgStream = append(msgStream, si)
 	}
 	sort.SliceStable(x.Sc.Acts, func(i, j int) bool { return x.Sc.Acts[i].AtMs < x.Sc.Acts[j].AtMs })
+	// a third of the scenarios start with stream sequence numbers / message ids just below their wrap
+	if rapid.IntRange(0, 2).Draw(rt, "seqpreset") == 0 {
+		x.Sc.SeqPreset = uint32(0) - uint32(rapid.IntRange(1, 6).Draw(rt, "seqd"))
+	}
 	// message ids follow the execution order of the write actions
 	// faults: message-targeted losses
 	nr := rapid.IntRange(1, 4).Draw(rt, "nrules")
@@ -459,6 +463,9 @@ func runPR(t *testing.T, x prScn, prop string, verbose bool) vfCase {
 			}
 			if anyAbandonable {
 				c.class("pr-stream")
+			}
+			if sc.SeqPreset != 0 {
+				c.class("ssn-mid-near-wrap")
 			}
 			if prop == "C06" {
 				c.Nontrivial = exhausted > 0
